@@ -15,7 +15,7 @@ package main
 import (
 	"flag"
 	"fmt"
-	"os"
+	"strings"
 	"time"
 
 	"verif/minichain"
@@ -46,9 +46,37 @@ func main() {
 		return
 	}
 	if r.ReplayPath != "" {
-		vk.Fatalf("replay files of C06 name the blocks (ops) from the base state; re-run the tier to reproduce")
+		replay(r)
 	}
-	defer os.RemoveAll(scratchDir())
+
+	states, trans, tampers, committed := 0, 0, 0, 0
+	var per []interface{}
+	keySets := map[string]map[string]bool{}
+	runFamily := func(f *family, rootKey string) {
+		t0 := time.Now()
+		res := explore(r, f, rootKey)
+		if !res.Capped {
+			keySets[f.Name] = res.Keys
+		}
+		wall := time.Since(t0).Seconds()
+		states += res.States
+		trans += res.Transitions
+		tampers += res.Stats["tampers"]
+		committed += res.Committed
+		per = append(per, map[string]interface{}{"search": f.Name, "trie": f.Trie, "alphabet_ops": len(f.Ops), "blocks_alphabet": len(f.blocks()),
+			"max_txs_per_block": f.MaxTx, "depth": f.Depth, "depth_completed": res.DepthCompleted, "states": res.States, "per_depth": res.PerDepth,
+			"transitions": res.Transitions, "disabled_candidates": res.Disabled, "blocks_committed": res.Committed, "blocks_rejected": res.Rejected,
+			"stats": sortedStats(res.Stats), "wall_s": int(wall)})
+		fmt.Printf("%-14s ops=%d blocks=%d depth=%d/%d states=%d %v transitions=%d committed=%d rejected=%d disabled=%d tampers=%d wall=%.0fs\n", f.Name, len(f.Ops), len(f.blocks()),
+			res.DepthCompleted, f.Depth, res.States, res.PerDepth, res.Transitions, res.Committed, res.Rejected, res.Disabled, res.Stats["tampers"], wall)
+	}
+
+	// first: what needs no prepared state, on the raw genesis state
+	for _, name := range []string{"genesis-flat", "genesis-trie"} {
+		if *onlyFamily == "" || contains(name, *onlyFamily) {
+			runFamily(fams[name], "genesis")
+		}
+	}
 
 	// the base state is built here too: its setup blocks run through the same oracle, and its key is the BFS root
 	rootKeys := map[bool]string{}
@@ -56,6 +84,22 @@ func main() {
 		defer func() {
 			if e := recover(); e != nil {
 				if he, ok := e.(harnessErr); ok {
+					if len(pending) > 0 {
+						// the tree cannot even run the setup (honest transactions are refused), but the genesis-level
+						// searches already decided: report what they found
+						r.Note("base state could not be built: %s", he.msg)
+						r.Capped("only the genesis-level searches ran: " + he.msg)
+						flush(r)
+						r.Set("searches", per)
+						r.Set("states", states)
+						r.Set("transitions", trans)
+						r.Set("traces_validated_against_impl", trans)
+						r.Set("evaluations", trans+tampers)
+						r.Set("distinct_nontrivial", states)
+						r.Set("rule", "genesis-level searches only")
+						cleanup()
+						r.Finish()
+					}
 					vk.Fatalf("%s", he.msg)
 				}
 				panic(e)
@@ -74,27 +118,37 @@ func main() {
 	}
 	r.Sample(map[string]interface{}{"base_state": rootKeys[false]})
 
-	states, trans, tampers, committed := 0, 0, 0, 0
-	var per []interface{}
-	order := familyOrder(r.Quick())
-	for _, name := range order {
-		f := fams[name]
+	for _, name := range familyOrder(r.Quick()) {
 		if *onlyFamily != "" && !contains(name, *onlyFamily) {
 			continue
 		}
-		t0 := time.Now()
-		res := explore(r, f, rootKeys[f.Trie])
-		wall := time.Since(t0).Seconds()
-		states += res.States
-		trans += res.Transitions
-		tampers += res.Stats["tampers"]
-		committed += res.Committed
-		per = append(per, map[string]interface{}{"search": f.Name, "trie": f.Trie, "alphabet_ops": len(f.Ops), "blocks_alphabet": len(f.blocks()),
-			"max_txs_per_block": f.MaxTx, "depth": f.Depth, "depth_completed": res.DepthCompleted, "states": res.States, "per_depth": res.PerDepth,
-			"transitions": res.Transitions, "disabled_candidates": res.Disabled, "blocks_committed": res.Committed, "blocks_rejected": res.Rejected,
-			"stats": sortedStats(res.Stats), "wall_s": int(wall)})
-		fmt.Printf("%-14s ops=%d blocks=%d depth=%d/%d states=%d %v transitions=%d committed=%d rejected=%d disabled=%d tampers=%d wall=%.0fs\n", f.Name, len(f.Ops), len(f.blocks()),
-			res.DepthCompleted, f.Depth, res.States, res.PerDepth, res.Transitions, res.Committed, res.Rejected, res.Disabled, res.Stats["tampers"], wall)
+		runFamily(fams[name], rootKeys[fams[name].Trie])
+	}
+	// the two storage modes must reach exactly the same states (value distribution and hidden ledger) over the same alphabet
+	for name, flat := range keySets {
+		if !strings.HasSuffix(name, "-flat") {
+			continue
+		}
+		trie, ok := keySets[strings.TrimSuffix(name, "-flat")+"-trie"]
+		if !ok {
+			continue
+		}
+		diff := 0
+		for k := range flat {
+			if !trie[k] {
+				diff++
+			}
+		}
+		for k := range trie {
+			if !flat[k] {
+				diff++
+			}
+		}
+		if diff > 0 {
+			report("flat-trie-divergence:"+strings.TrimSuffix(name, "-flat"), fmt.Sprintf("flat and trie storage modes reach different state sets over the same alphabet (%d states differ)", diff),
+				map[string]interface{}{"search": name})
+		}
+		r.Add("flat_trie_state_sets_compared", 1)
 	}
 	flush(r)
 	r.Set("searches", per)
@@ -113,6 +167,7 @@ func main() {
 	if !minichain.RecipeFingerprintOK() {
 		r.Assume(minichain.RecipeAssumption)
 	}
+	cleanup()
 	r.Finish()
 }
 
@@ -123,4 +178,53 @@ func contains(s, sub string) bool {
 		}
 	}
 	return false
+}
+
+// replay re-runs the recorded case of a replay file (blocks_json from the recorded start state) and reports what the
+// oracle says about every block.
+func replay(r *vk.Run) {
+	var rec struct {
+		Trie    bool   `json:"trie"`
+		Genesis bool   `json:"genesis"`
+		Blocks  [][]op `json:"blocks_json"`
+	}
+	r.LoadReplay(&rec)
+	func() {
+		defer func() {
+			if e := recover(); e != nil {
+				if he, ok := e.(harnessErr); ok {
+					vk.Fatalf("%s", he.msg)
+				}
+				panic(e)
+			}
+		}()
+		s := genesisSnap(rec.Trie)
+		if !rec.Genesis {
+			s = base(rec.Trie).snap
+		}
+		w, err := s.restore("parent")
+		if err != nil {
+			vk.Fatalf("%v", err)
+		}
+		pre := s.obs
+		for i, blk := range rec.Blocks {
+			out := w.runBlock(pre, blk, len(blk) == 1)
+			fmt.Printf("block %d %s: committed=%v %s %s\n", i+1, opsString(blk), out.Committed, out.Disabled, out.BlockErr)
+			for _, v := range out.Verdicts {
+				fmt.Printf("   CheckTx %-12s %s: %q\n", v.Class, v.Op, v.CheckTx)
+			}
+			for _, v := range out.Viol {
+				r.Violation(v.Key, v.What, map[string]interface{}{"blocks_json": rec.Blocks, "trie": rec.Trie, "genesis": rec.Genesis})
+			}
+			if !out.Committed {
+				break
+			}
+			pre = w.observe()
+		}
+		w.close()
+	}()
+	cleanup()
+	r.Set("states", len(rec.Blocks))
+	r.Set("transitions", len(rec.Blocks))
+	r.Finish()
 }
